@@ -181,6 +181,14 @@ def run(res, tier, br, model_ok=True, search=False):
                         res.report(f"violation:{op.id}:status", f"{op.id} on {p.name}: code reported but status {r['status']}", rp)
                     elif len(cli_cases) < (10 if big else 3) and rng.random() < 0.05:
                         cli_cases.append((p.name, text))
+                    # a violation is a violation whatever the source file is called
+                    if found and r["status"] == "Error" and p.name.endswith(".c") and (big or hits[op.id] == 1):
+                        alt = rng.choice(families.name_variants(p.name))
+                        r2 = pipeline(alt, text)
+                        res.count("catalogue.names", 1)
+                        if r2["outcome"] != "ok" or not any(d[0] in codes and d[3] and d[3][0][0] == line for d in r2["diags"]):
+                            res.report(f"violation:{op.id}:missing", f"{op.id} in a file called {alt}: {list(codes)} not reported on line {line} ({r2['outcome']}), although it is in {p.name}",
+                                       {"kind": "violation", "name": alt, "src": text, "operator": op.id, "codes": list(codes), "line": line})
     for name, text, code, line in families.extra_violating():
         r = pipeline(name, text)
         res.count("catalogue.wrapped", 1)
